@@ -263,7 +263,8 @@ def main():
         "violations": len(violations),
     }
     os.makedirs(os.path.join(HERE, "evidence"), exist_ok=True)
-    with open(os.path.join(HERE, "evidence", pid + ".json"), "w") as f:
+    evname = pid + (".partial.json" if a.only else ".json")      # a filtered run never replaces the property's evidence file
+    with open(os.path.join(HERE, "evidence", evname), "w") as f:
         json.dump(ev, f, indent=1, default=str)
     print("SUMMARY property=%s tier=%s obligations=%d holds=%d inconclusive=%d errors=%d violations=%d known=%d wall=%.1fs" % (
         pid, tier, len(results), n_hold, n_inc, n_err, len(violations), len([x for x in known_lines if x.startswith("KNOWN")]), wall))
